@@ -46,6 +46,8 @@ pub struct SiteShape {
     pub gap_s: i64,
     pub jitter_seed: u64,
     pub fraction: bool,
+    /// a sixth of the populated directories lack their first chunks
+    pub missing_starts: bool,
 }
 
 impl SiteShape {
@@ -55,6 +57,16 @@ impl SiteShape {
     }
     fn chunk_count(&self, v: usize) -> usize {
         1 + (crate::rng::mix(&[self.jitter_seed, 77, v as u64]) % 55) as usize
+    }
+    /// Sequence of the first chunk present: a populated directory need not hold its chunk 1
+    /// (partly expired, or its first upload was lost); such a directory is still populated.
+    fn first_seq(&self, v: usize) -> usize {
+        if self.missing_starts && crate::rng::mix(&[self.jitter_seed, 91, v as u64]) % 6 == 0 {
+            let k = self.chunk_count(v);
+            1 + (crate::rng::mix(&[self.jitter_seed, 92, v as u64]) % k as u64) as usize
+        } else {
+            1
+        }
     }
 }
 
@@ -118,7 +130,7 @@ impl Backend for ShapeBucket {
                         if let Some(age) = ss.shape.age(v) {
                             let start = ss.first_chunk_ms(age);
                             let k = ss.chunk_count(v);
-                            for i in 1..=k {
+                            for i in ss.first_seq(v)..=k {
                                 let key = format!("{}/{}/{}", ss.site, v, chunk_name(start, i));
                                 if !key.starts_with(prefix.as_str()) {
                                     continue;
@@ -172,7 +184,7 @@ fn small_total(max_n: usize) -> u64 {
     (1..=max_n).map(|n| (n * (n + 1)) as u64).sum()
 }
 
-const SITES: [&str; 4] = ["KDMX", "KTLX", "PHWA", "TJUA"];
+const SITES: [&str; 7] = ["KDMX", "KTLX", "PHWA", "TJUA", "DAN1", "FOP1", "ROP4"];
 
 impl Check for C15 {
     fn id(&self) -> &'static str {
@@ -263,14 +275,18 @@ impl Check for C15 {
         let mut sites: Vec<SiteShape> = Vec::new();
         for k in 0..nsites {
             let shape = if k == 0 { first_shape } else { draw_production(tape) };
+            let missing_starts = tape.draw(3) == 2;
             sites.push(SiteShape {
                 site: SITES[(first_site + k) % SITES.len()].to_string(),
                 shape,
                 // the newest upload is 1..120 s old
                 newest_ms: s3sim::EPOCH_MS - 1000 * (1 + tape.draw(120) as i64),
-                gap_s: 1 + tape.draw(600) as i64,
+                // volumes start >= 1 s apart; when first chunks may be missing, further apart than a
+                // whole volume lasts, so that "first listed chunk" still orders the directories
+                gap_s: if missing_starts { 300 + tape.draw(600) as i64 } else { 1 + tape.draw(600) as i64 },
                 jitter_seed: tape.seed(),
                 fraction: tape.draw(2) == 1,
+                missing_starts,
             });
         }
         let (fail_rate, status_rate, mut latency_max_ms, budget) = if faults {
